@@ -94,5 +94,11 @@ CHECKS["C09"] = (
     "os.makedirs) - unverified, fail-closed (unclassifiable constructs abort), validated by the twin runs; calls on parameters/locals are "
     "Given (premise); vm_compute decides the per-run boolean (kernel-checked). No axioms.",
 )
+CHECKS["C13"] = (
+    "DESIGN.md §2 C13",
+    "Coq proof over R (softmax / categorical identities, clipped-std range, closed-form Gaussian log-density and entropy, affine sampling, arg-max is a first maximiser, epsilon-greedy corner cases and the DQN-family action rule) + correspondence of the heads with closed-form references and the extracted model, greedy checks on tables and in training runs",
+    "Theorems: softmax probabilities are positive and sum to one, the categorical log-probability is the log of the selected entry and the entropy is -sum p ln p of the same probabilities; the Gaussian heads' std lies in [e^-20, e^2] for any raw log-variance, their log-probability is the sum over dimensions of ln N(a; mean, std), the per-dimension entropy is 0.5 ln(2 pi e std^2), a sample is mean + std*eps; greedy returns a first maximiser, epsilon 0 is greedy, epsilon 1 ignores the values, the DQN-family rule explores during warm-up / epsilon 1 and is greedy otherwise. All heads are run unbatched and with batch sizes 1-5 and action dimensions 1-3 on every run.",
+    "Trusts: Coq kernel + standard-library real-number axioms; extraction, OCaml glue (libm), harness; TFP distributions and jax.random as executed; float32 tolerance 1e-4; log-probabilities compared only where (a-mean)/std is well conditioned in float32. The exploration probability of the training loops is sanity-checked, not proved.",
+)
 _PENDING = "check not built yet in this revision (planned: Coq model + correspondence, see DESIGN.md §2)"
 NOT_APPLICABLE = {f"C{i:02d}": _PENDING for i in range(1, 21) if f"C{i:02d}" not in CHECKS}
